@@ -24,7 +24,7 @@ MACHINE_NOTE = "trusts the harness's own reference simulator (numpy/scipy; two i
 def machine(design, text, technique):
     return dict(category="exploration", design_ref=design, technique=technique, text=text, note=MACHINE_NOTE)
 CHECKS.update({
- "C01": machine("DESIGN.md 3/C01", "Generated worlds x storage layouts x levels x entry points x states (entangled, mixed, amplitude-cancelling) x all single-subsystem operation types; each call compared step-wise with (OxI)rho(OxI)^+ from the reference model. Sampling over a large finite cell grid times a continuum; no exhaustiveness claim.",
+ "C01": machine("DESIGN.md 3/C01", "Generated worlds x storage layouts x levels x entry points x states (entangled, mixed, nearly pure, amplitude-cancelling) x all single-subsystem operation types, alone or after generated histories (measurements, channels, structural calls, life cycles of one envelope, non-unitary user operators); each call compared step-wise with (OxI)rho(OxI)^+ from the reference model. Sampling over a large finite cell grid times a continuum; no exhaustiveness claim.",
    "property-based testing (Hypothesis program generation): differential against an independent dense reference simulator, per step"),
  "C02": machine("DESIGN.md 3/C02", "Generated programs of structural calls (combine/reorder/expand/contract/merge) and trace_out at three entry points; invariant 'joint state unchanged' after every structural call and differential check of the returned reduced state against the reference partial trace.",
    "property-based testing (Hypothesis program generation): state-invariance oracle + differential partial trace"),
@@ -49,11 +49,11 @@ CHECKS.update({
    "property-based testing (Hypothesis program generation): validity predicate for resize + differential against a large-cut-off reference"),
  "C11": machine("DESIGN.md 3/C11", "Generated interferometer meshes of beam splitters and phase shifters over 2-3 modes in every layout: total-photon-number distribution invariant and SU(2) reference per step; Mach-Zehnder example program with generated phase against the cos^2/sin^2 closed form (state and intercepted detection probabilities).",
    "property-based testing (Hypothesis program generation): conservation invariant + differential SU(2) reference + closed-form Mach-Zehnder oracle"),
- "C13": machine("DESIGN.md 3/C13", "Histories with merges of composite envelopes, combines, reorders, operations, channels and measurements; bookkeeping predicate (index names the place, back pointers resolve, no duplicate/empty product space) after every successful call.",
+ "C13": machine("DESIGN.md 3/C13", "Histories with merges of composite envelopes (incl. 'merge storms' of re-wraps, chains and three-way merges over several independent composites), combines, reorders, operations, channels and measurements; bookkeeping predicate (index names the place, back pointers resolve, no duplicate/empty product space) after every successful call.",
    "property-based testing (Hypothesis program generation, history-based): bookkeeping invariant over registries, containers and indices"),
  "C14": machine("DESIGN.md 3/C14", "Metamorphic twins of programs with unforced measurements: re-seed and re-run, run after unrelated activity, run in a fresh interpreter; outcomes, sampler keys and final states must coincide; keys pairwise distinct; coarse frequency bound on two successive draws over 256 seeds.",
    "property-based testing (Hypothesis): metamorphic twin runs + key-distinctness invariant via sampler interception"),
- "C15": machine("DESIGN.md 3/C15", "Generated schedules of construct/apply events over 2-3 operation slots; twin with long-lived Operation objects vs twin with freshly constructed equal operations must agree on accept/reject and joint state after every apply.",
+ "C15": machine("DESIGN.md 3/C15", "Generated schedules of construct / failed-construct / apply events over 2-3 operation slots (mostly of the same type with different parameters; sometimes sent to targets of another size); twin with long-lived Operation objects vs twin with freshly constructed equal operations must agree on accept/reject and joint state after every apply.",
    "property-based testing (Hypothesis): metamorphic twin schedules (re-used vs fresh Operation objects)"),
  "C18": machine("DESIGN.md 3/C18", "Metamorphic twins: the same program on a world whose subsystems hold equal values and on one where they are distinct; a step oracle failing only in the equal-valued world, or differing addressing signatures, is a confusion of subsystems.",
    "property-based testing (Hypothesis): metamorphic twin worlds (equal-valued vs distinct-valued subsystems) under identity-based step oracles"),
